@@ -461,7 +461,53 @@ def gen_panic_sites():
     return {"sites": len(rows)}
 
 
-GENERATORS = [("GenPanicSites", gen_panic_sites), ("GenPipeline", gen_pipeline), ("GenTopo", gen_topo), ("GenStages", gen_stages), ("GenTokens", gen_tokens), ("GenLegend", gen_legend), ("GenDecoders", gen_decoders)]
+# ------------------------------------------------------------------------------------------
+# parser.rs precedence! block -> GenPrec.v
+# ------------------------------------------------------------------------------------------
+def gen_prec():
+    src = read("compiler/parser/src/parser.rs")
+    m = re.search(r"pub rule expression\(\) -> ExprKind = precedence!\{(.*?)\n    \}\n", src, re.S)
+    if not m:
+        raise Refuse("parser.rs: precedence! block of expression() not found")
+    levels = [[]]
+    atoms = []
+    for line in m.group(1).split("\n"):
+        st = line.strip()
+        if not st or st.startswith("//"):
+            continue
+        if st == "--":
+            levels.append([])
+            continue
+        a = re.match(r"^x:(\(@\)|@) _ tok\(TokenType::(\w+)\) ?_ y:(\(@\)|@) \{ ExprKind::(compare|binary)\((?:CompareOp|Operator)::(\w+), x, y ?\) \}$", st)
+        if a:
+            lassoc, tok, rassoc, ctor, op = a.groups()
+            assoc = "left" if (lassoc, rassoc) == ("(@)", "@") else "right" if (lassoc, rassoc) == ("@", "(@)") else "other"
+            levels[-1].append((tok, ctor, op, assoc))
+            continue
+        if st.startswith("p:unary_expression()"):
+            atoms.append("unary_expression")
+        elif st.startswith("c:constant()"):
+            atoms.append("constant")
+        elif st.startswith("v:variable()"):
+            atoms.append("variable")
+        elif st.startswith("tok(TokenType::LeftParen) _ e:expression() _ tok(TokenType::RightParen)"):
+            atoms.append("paren")
+        elif st.startswith("f:function_expression()"):
+            atoms.append("function_expression")
+        else:
+            raise Refuse("parser.rs: unexpected line in precedence!: %r" % st)
+    op_levels = [l for l in levels if l]
+    o = ["(* GENERATED by tools/translate.py from the precedence! block of compiler/parser/src/parser.rs -- do not edit *)",
+         "From Coq Require Import List String.", "Import ListNotations.", "Local Open Scope string_scope.", "",
+         "(* lowest level first; (token, constructor, operator, associativity) *)",
+         "Definition prec_table : list (list (string * string * string * string)) :=",
+         "  [" + ";\n   ".join("[" + "; ".join("(%s, %s, %s, %s)" % tuple(coq_string(x) for x in row) for row in lvl) + "]" for lvl in op_levels) + "].",
+         "Definition prec_atoms : list string := [" + "; ".join(coq_string(a) for a in atoms) + "].", ""]
+    write_if_changed("GenPrec.v", "\n".join(o) + "\n")
+    return {"levels": [len(l) for l in op_levels], "atoms": atoms}
+
+
+GENERATORS = [("GenPrec", gen_prec), ("GenPanicSites", gen_panic_sites), ("GenPipeline", gen_pipeline), ("GenTopo", gen_topo), ("GenStages", gen_stages), ("GenTokens", gen_tokens), ("GenLegend", gen_legend), ("GenDecoders", gen_decoders)]
 
 
 def main():
